@@ -620,10 +620,10 @@ def jobs_for(pid, tier):
                        consts=({"CapA": 4, "CapB": 4, "Classes": [0, 1, 2, 3, 4], "Vals": [0]} if md == "set" or q
                                else {"CapA": 4, "CapB": 4, "Classes": [0, 1, 2, 3], "Vals": [0, 1]})) for md in ("set", "map")]
                + pairs("eqset", ["eq"], "set", qcaps if q else tcaps) + pairs("eqmap", ["eq"], "map", qcaps[:2] if q else tcaps[:9]),
-        "C15": shaped(both("clone", ["clone"])) + both("setclone", ["clone"], mode="set"),
+        "C15": shaped(both("clone", ["clone"]) + both("setclone", ["clone"], mode="set")),
         "C20": both("serde", ["serde"]) + both("setserde", ["serde"], mode="set"),
-        "C06": tbig + prof(shaped(core), *([] if q else ["stdfeat"])) + both("cursor", ["cursor"]) + both("efdc", ["entry", "fmt", "disjoint", "clone", "unchecked"], consts={"Vers": [0]})
-               + shaped(setcore) + both("setclone", ["clone"], mode="set")
+        "C06": tbig + prof(shaped(core), *([] if q else ["stdfeat"])) + both("cursor", ["cursor"]) + shaped(both("efdc", ["entry", "fmt", "disjoint", "clone", "unchecked"], consts={"Vers": [0]}))
+               + shaped(setcore + both("setclone", ["clone"], mode="set"))
                + shaped(both("bulk", ["bulk"], bigconsts={"MaxExtra": 1})) + shaped(both("setbulk", ["bulk"], mode="set", consts={"MaxExtra": 1}, bigconsts={"Vers": [0]}))
                + pairs("alg", ["algebra", "eq"], "set", qcaps[:2] if q else tcaps[:8]) + pairs("eqmap", ["eq"], "map", qcaps[:1] if q else tcaps[:4]),
         "C04": tinj + micro_inject + ([] if q else micro_bin) + [dict(j, sweep="inject") for j in
